@@ -101,6 +101,23 @@ class Session:
         if d is not None:
             self._fail("md3-state-mismatch", f"{where}: '{d}' differs: implementation {o}, protocol model {model_obs(self.model)}")
 
+    def _adopted_like_set_reference(self, rows):
+        """the labelled samples are adopted "as the new reference": their summary must be the one a newly constructed
+        MD3 with the same parameters computes when the same rows are handed to set_reference"""
+        from menelaus.concept_drift import MD3
+
+        df = pd.DataFrame([[r[1], r[2], r[0], r[3]] for r in rows], columns=mm.FEATURES + [mm.TARGET])
+        with sut(detector="MD3", op="twin.set_reference"):
+            twin = MD3(mm.Stub(0.0, log_id=-1), margin_calculation_function=mm.margin, sensitivity=self.cfg["sens"], k=self.cfg["k"], oracle_data_length_required=self.cfg["L"])
+            twin.set_reference(df, target_name="y")
+            a, b = dict(self.det.reference_distribution), dict(twin.reference_distribution)
+        mm.LOG.pop(-1, None)
+        bad = [k for k in ("len", "md", "md_std", "acc", "acc_std") if abs(float(a[k]) - float(b[k])) > 1e-12]
+        if bad:
+            self._fail("md3-adopted-reference-differs-from-set_reference", f"reference adopted from the oracle samples {a} differs in {bad} from set_reference on the same rows by a new detector {b}")
+        if self.ctx:
+            self.ctx.label("adopted-vs-set_reference")
+
     def apply(self, op, xval=0.5):
         """op in ALPHABET; xval: the decision feature of the sample"""
         self.history.append([op, xval])
@@ -166,7 +183,9 @@ class Session:
                 if raised is None and not mm.folds_valid(folds, ids, self.cfg["k"]):
                     self._fail("md3-folds", f"new reference folds {folds} do not partition the labelled rows {ids}")
                 if raised is None:
+                    adopted = list(m.labels)
                     m.finish_confirm(folds)
+                    self._adopted_like_set_reference(adopted)
                     if self.ctx:
                         self.ctx.label("confirmation", "confirmed-drift" if m.state == "drift" else "ruled-out")
         if exp == "refused":
